@@ -293,6 +293,16 @@ class Rpc(WorldStream):
                 c["as"] = rng.choice(["param", "result", "kwparam"])
                 c["version"] = rng.choice([1.0, 2.0])
                 cases.append(c)
+        # falsy custom objects (zero Decimals) and every enum member / Decimal in each role and version: the
+        # conversion must not depend on the truth value of what travels
+        if cases:
+            descs = cases[0]["world"]
+            edge = [W.Dec("0"), W.Dec("0.00"), W.Dec("-0"), [W.Dec("0")], {"z": W.Dec("0")}]
+            edge += [W.EnumV(d["cid"], m) for d in descs if d["kind"] == "enum" for m in d["members"]][:4]
+            for v in edge:
+                for role in ("param", "result", "kwparam"):
+                    for ver in (1.0, 2.0):
+                        cases.append({"world": descs, "value": W.dv_copy(v), "as": role, "version": ver})
         return cases
 
     def run_impl(self, case):
